@@ -29,6 +29,57 @@ pub struct Principal {
     /// The bearer token the documented extraction yields (None: absent or
     /// malformed header).
     pub token: Option<String>,
+    /// Constructed near-miss credentials are sent with a small body subset
+    /// (the decision they probe is taken before the body is looked at).
+    pub focused: bool,
+}
+
+fn sha3_digest(s: &str) -> [u8; 32] {
+    let mut h = sha3::Sha3_256::new();
+    h.update(s.as_bytes());
+    h.finalize().into()
+}
+
+/// Garbage tokens whose SHA3-256 digest (the hash the server stores and
+/// compares) agrees with the digest of `key` in exactly the places a
+/// short-cut comparison could look at: last byte, first byte, first two
+/// bytes, last two bytes. Found by a deterministic counter search, once per
+/// key per process.
+pub fn near_misses(key: &str) -> Vec<(&'static str, String)> {
+    use std::collections::HashMap;
+    use std::sync::{Mutex, OnceLock};
+    static CACHE: OnceLock<Mutex<HashMap<String, Vec<(&'static str, String)>>>> = OnceLock::new();
+    let cache = CACHE.get_or_init(|| Mutex::new(HashMap::new()));
+    if let Some(v) = cache.lock().unwrap().get(key) {
+        return v.clone();
+    }
+    let want = sha3_digest(key);
+    let classes: [(&'static str, fn(&[u8; 32], &[u8; 32]) -> bool); 4] = [
+        ("last-byte", |a, b| a[31] == b[31]),
+        ("first-byte", |a, b| a[0] == b[0]),
+        ("first-2-bytes", |a, b| a[..2] == b[..2]),
+        ("last-2-bytes", |a, b| a[30..] == b[30..]),
+    ];
+    let mut found: Vec<Option<String>> = vec![None; classes.len()];
+    let tag = vcore::util::fnv_hex(key.as_bytes());
+    let mut counter: u64 = 0;
+    while found.iter().any(|f| f.is_none()) && counter < 5_000_000 {
+        let candidate = format!("garbage-{tag}-{counter}");
+        counter += 1;
+        let d = sha3_digest(&candidate);
+        if d == want {
+            continue;
+        }
+        for (i, (_, agrees)) in classes.iter().enumerate() {
+            if found[i].is_none() && agrees(&d, &want) {
+                found[i] = Some(candidate.clone());
+            }
+        }
+    }
+    let out: Vec<(&'static str, String)> =
+        classes.iter().zip(found).filter_map(|((name, _), f)| f.map(|t| (*name, t))).collect();
+    cache.lock().unwrap().insert(key.to_string(), out.clone());
+    out
 }
 
 pub fn principals(m: &Model) -> Vec<Principal> {
@@ -38,7 +89,8 @@ pub fn principals(m: &Model) -> Vec<Principal> {
             Auth::Bearer(t) => Some(t.clone()),
             _ => None,
         };
-        out.push(Principal { label, kind, auth, token });
+        let focused = kind == "near-miss";
+        out.push(Principal { label, kind, auth, token, focused });
     };
     push("none".into(), "none", Auth::None);
     push("garbage".into(), "garbage", Auth::Bearer("definitely-not-a-key".into()));
@@ -64,7 +116,34 @@ pub fn principals(m: &Model) -> Vec<Principal> {
             push(format!("key-hash:{}", DBS[db]), "key-hash", Auth::Bearer(sha3_hex(&t)));
         }
     }
+    // constructed near misses of every key that exists (or existed) in this
+    // state: the admin key, every bound and every revoked database token
+    let mut keys: Vec<(String, String)> = vec![("admin".to_string(), ADMIN_KEY.to_string())];
+    for db in 0..2 {
+        for i in 1..=m.dbs[db].issued {
+            keys.push((format!("key:{}:{i}", DBS[db]), token(db, i)));
+        }
+    }
+    for (name, key) in keys {
+        for (class, t) in near_misses(&key) {
+            push(format!("near-miss:{class}:{name}"), "near-miss", Auth::Bearer(t));
+        }
+        push(format!("near-miss:prefix:{name}"), "near-miss", Auth::Bearer(key[..key.len() - 1].to_string()));
+        push(format!("near-miss:extension:{name}"), "near-miss", Auth::Bearer(format!("{key}0")));
+        push(format!("near-miss:hash-hex:{name}"), "near-miss", Auth::Bearer(sha3_hex(&key)));
+    }
     out
+}
+
+/// Bodies sent by the `focused` principals.
+pub fn in_focus(b: &Body) -> bool {
+    match &b.kind {
+        BodyKind::Method { name, variant: Variant::Minimal } => {
+            matches!(name.as_str(), "info" | "doc.get" | "doc.add" | "db.set_api_key" | "db.list")
+        }
+        BodyKind::Probe(p) => *p == "oversized",
+        _ => false,
+    }
 }
 
 #[derive(Clone, Copy, Debug, PartialEq, Eq, PartialOrd, Ord, Hash)]
